@@ -337,18 +337,6 @@ theorem run_end (g : Cfg) (e : Env) : ∀ (n : Nat) (s : S) (acts : List Act), s
         have hw' : Within g { cache := s.cache.drop total, k := k' } := applyFrame_within g e s total op body fin r1 k' a hw hnf haf
         exact ih { cache := s.cache.drop total, k := k' } (acts ++ a) (by simp only [List.length_drop]; omega) hw'
 
-/-- feeding segments one Parse call at a time; stops at the first error (the engine closes the connection) -/
-def feed (g : Cfg) (e : Env) : S → List Bytes → List Act → PR
-  | s, [], acts => ⟨s, acts, none⟩
-  | s, seg :: segs, acts =>
-    match (parse g e s seg).err with
-    | some er => ⟨(parse g e s seg).s, acts ++ (parse g e s seg).acts, some er⟩
-    | none => feed g e (parse g e s seg).s segs (acts ++ (parse g e s seg).acts)
-
-/-- what can be observed of a result: the actions, the error, what Parse keeps besides the unparsed bytes, and
-    the unparsed bytes while the connection lives -/
-def PR.obs (r : PR) : List Act × Option Err × K × Option Bytes := (r.acts, r.err, r.s.k, if r.err.isNone then some r.s.cache else none)
-
 theorem feed_flatten (g : Cfg) (e : Env) (hl : g.readLimit = 0) : ∀ (segs : List Bytes) (s : S) (acts : List Act),
     Within g s → nextFrame g s = .need →
     (feed g e s segs acts).obs = (run g e { s with cache := s.cache ++ segs.flatten } acts).obs := by
